@@ -3,6 +3,7 @@
 # Confirms a seeded change produced by an independent agent in /tmp/seed/<id> (+ /tmp/seed/<id>.out) and stores it under /verif/seeded/<id>/.
 set -u
 id=$1; shift
+V=${VERIF_WT:-/verif}   # worktree of /verif the checks run in (a scratch one, so that /verif itself is left alone)
 src=/tmp/seed/$id; out=/tmp/seed/$id.out; dst=/verif/seeded/$id
 mkdir -p $dst
 (cd $out && PYTHONPATH=/repo /venv/bin/python demo.py >/dev/null 2>&1); d0=$?
@@ -22,7 +23,7 @@ PY
 echo "baseline tests missing with the change: $tests"
 results=""
 for p in "$@"; do
-  line=$(cd /verif && CCP2_REPO=$src /venv/bin/python harness/check.py $p 2>/dev/null | grep -v KNOWN | grep VIOLATION | head -1); rc=$?
+  line=$(cd $V && CCP2_REPO=$src /venv/bin/python harness/check.py $p 2>/dev/null | grep -v KNOWN | grep VIOLATION | head -1); rc=$?
   echo "$p: ${line:-no violation reported}"
   results="$results$p=${line:+caught}${line:-missed};"
   if [ -n "$line" ]; then rp=$(echo "$line" | sed 's/.*replay=\([^ ]*\).*/\1/'); cp "$rp" $dst/replay-$p.json 2>/dev/null; fi
